@@ -45,6 +45,15 @@ func (r *recorder) take() string {
 
 var errLib = errors.New("library function failed")
 
+// error types whose failing values are zero values: a struct without fields, an empty string
+type zeroErr struct{}
+
+func (zeroErr) Error() string { return "zero-valued error" }
+
+type zeroStrErr string
+
+func (e zeroStrErr) Error() string { return "empty string error" }
+
 func goTypeName(v interface{}) string {
 	if v == nil {
 		return "null"
@@ -63,6 +72,8 @@ func filterFunc(name string, rec *recorder) func(interface{}) (interface{}, erro
 		"wrap": func(v interface{}) (interface{}, error) { return []interface{}{v}, nil },
 		"tn":   func(v interface{}) (interface{}, error) { return goTypeName(v), nil },
 		"fail": func(v interface{}) (interface{}, error) { return nil, errLib },
+		// fails with an error whose value is the zero value of its (non-pointer) type
+		"zfail": func(v interface{}) (interface{}, error) { return nil, zeroErr{} },
 		// a function whose result is a Go number that is not a float64 (kind int3): it replaces the value as it is
 		"k3": func(v interface{}) (interface{}, error) { return int(3), nil },
 		// a user function that itself uses the library and hands the error it got back unchanged
@@ -112,6 +123,7 @@ func aggFunc(name string, rec *recorder) func([]interface{}) (interface{}, error
 		// when the result is read again later
 		"arr":   func(l []interface{}) (interface{}, error) { return l, nil },
 		"afail": func(l []interface{}) (interface{}, error) { return nil, errLib },
+		"azfail": func(l []interface{}) (interface{}, error) { return nil, zeroStrErr("") },
 		"c5":    func(l []interface{}) (interface{}, error) { return int64(5), nil },
 		// a user function that panics: the caller (the runner) recovers; the library must be as good as new afterwards
 		"apanic": func(l []interface{}) (interface{}, error) { panic("user aggregate function panicked") },
